@@ -3,6 +3,7 @@
 import AioftpModel.Driver.Codec
 import AioftpModel.Model.Paths
 import AioftpModel.Driver.Session
+import AioftpModel.Driver.Lifecycle
 
 open Codec Model Py
 
@@ -42,6 +43,7 @@ structure DState where
 /-- pure components: tokens after the component word → answer -/
 def handlePure : List String → Option String
   | "paths" :: rest => handlePaths rest
+  | "life" :: rest => DriverLifecycle.handleLife rest
   | _ => none
 
 def handle (st : DState) (line : String) : DState × String :=
